@@ -729,7 +729,18 @@ def c11_r13(ctx):
             for c in norm.calls_in(f.node):
                 if not isinstance(c.func, ast.Attribute):
                     continue
-                if c.func.attr in want:
+                is_super = isinstance(c.func.value, ast.Call) and norm.call_name(c.func.value) == "super"
+                explicit_base = isinstance(c.func.value, ast.Name) and c.func.value.id[:1].isupper() and c.args and \
+                    isinstance(c.args[0], ast.Name) and c.args[0].id == "self"
+                if depth < 3 and (is_super or explicit_base) and c.func.attr == nm:
+                    # super().reset() / BiMatcher.reset(self): the base class's method does (part of) the work
+                    for b_ in prog.mro(cls)[1:]:
+                        if hasattr(b_, "methods") and c.func.attr in b_.methods and (is_super or b_.name == c.func.value.id):
+                            sub = set(seen)
+                            sub.discard(b_.methods[c.func.attr].qualname)
+                            out |= children(b_, [c.func.attr], want, depth + 1, sub)
+                            break
+                elif c.func.attr in want:
                     r = c.func.value
                     if isinstance(r, ast.Name) and r.id in loopmap:
                         out.add(loopmap[r.id])
@@ -740,11 +751,6 @@ def c11_r13(ctx):
                             out.add(b)
                 elif depth < 3 and norm.canon(c.func.value) == "self" and (c.func.attr.startswith("_") or c.func.attr in want):
                     out |= children(cls, [c.func.attr], want, depth + 1, seen)
-                elif depth < 3 and isinstance(c.func.value, ast.Call) and norm.call_name(c.func.value) == "super" and c.func.attr in names:
-                    for b_ in prog.mro(cls)[1:]:
-                        if c.func.attr in b_.methods:
-                            out |= children(b_, [c.func.attr], want, depth + 1, seen)
-                            break
         return out
 
     for cls in prog.subclasses(base, strict=True):
